@@ -357,9 +357,19 @@ bool dispatch_table(State& st, const std::string& op, const json& a, json& ret)
         ret = rows;
         return true;
     }
-    auto tt = lib.track();
-    auto pt = lib.playlist();
-    auto pe = lib.playlist_entity();
+    auto fresh_tt = lib.track();
+    auto fresh_pt = lib.playlist();
+    auto fresh_pe = lib.playlist_entity();
+    bool held = a.value("held", false);
+    if (held && !st.held_tt)
+    {
+        st.held_tt.emplace(lib.track());
+        st.held_pt.emplace(lib.playlist());
+        st.held_pe.emplace(lib.playlist_entity());
+    }
+    auto& tt = held ? *st.held_tt : fresh_tt;
+    auto& pt = held ? *st.held_pt : fresh_pt;
+    auto& pe = held ? *st.held_pe : fresh_pe;
     if (op == "trk_add") { ret = tt.add(track_row_from_json(a.at("row"))); return true; }
     if (op == "trk_get")
     {
